@@ -209,8 +209,15 @@ def run_plan(plan: dict) -> dict:
     elif isinstance(exc, LeaspyConvergenceError):
         C["abort.convergence_error"] += 1
     elif exc is not None:
-        # not attributable to C05 (another property's defect region): discard, counted
-        out["discarded"] = f"fit_raised:{type(exc).__name__}"
+        import traceback
+
+        frames = [f.name for f in traceback.extract_tb(exc.__traceback__)]
+        if frames and frames[-1] == "_maximization_step" or (len(frames) > 1 and frames[-2] == "_maximization_step" and frames[-1] in ("<dictcomp>", "<genexpr>", "<listcomp>")):
+            # the schedule code itself failed (e.g. blending with statistics that do not exist yet)
+            violation(out, "recursion", f"maximization_step_raised:{type(exc).__name__}", f"k={world.k}: {type(exc).__name__}: {exc}")
+        else:
+            # not attributable to C05 (another property's defect region): discard, counted
+            out["discarded"] = f"fit_raised:{type(exc).__name__}"
     elif C["steps.mstep"] != cfg["n_iter"]:
         violation(out, "recursion", "number_of_maximisation_steps", f"{C['steps.mstep']} != {cfg['n_iter']}")
     C[f"model.{cfg['kind']}"] += 1
